@@ -772,3 +772,89 @@ Proof.
     + rewrite M, V. exact Hd2.
     + exists d', s', te. split; [exact E'|]. split; [exact V'|]. split; [|exact Hc]. rewrite Er', Er, <- !app_assoc. reflexivity.
 Qed.
+
+(* generic: a damaged command B on which parse_command raises 'token required' (before its
+   body), standing at X :: r *)
+Lemma class_exc_untouched items junk (B : str) X r v e :
+  wf_file month_macros items -> no_at junk -> no_at r -> (X =? c_at) = false -> (2 <= length B)%nat ->
+  (forall s1, sc_rest (p_sc s1) = B ->
+     exists st2 te, parse_command Capture s1 = Exc te st2 /\ sc_rest (p_sc st2) = X :: r /\ e_cls te = E_TOKEN
+                    /\ p_errs st2 = p_errs s1 /\ p_macros st2 = p_macros s1) ->
+  denote_items2 month_macros items ([], []) = Some (v, e) ->
+  exists d s, parse_bib Capture (file_text2 items (junk ++ c_at :: B)) = Ret d s /\ untouched s /\ view d = v
+              /\ p_macros s = final_macros month_macros items
+              /\ exists te, p_errs s = map data_err e ++ [te] /\ e_cls te = E_TOKEN.
+Proof.
+  intros Hwf Hj Hr HX3 HB Hcmd Hd. unfold parse_bib.
+  set (text := file_text2 items (junk ++ c_at :: B)).
+  pose proof (file_text2_lower items (junk ++ c_at :: B)) as Hlen. fold text in Hlen.
+  assert (Hl2 : (length items + 3 <= S (length text))%nat) by (rewrite app_length in Hlen; cbn [length] in Hlen; lia).
+  replace (S (length text)) with (length items + (S (length text) - length items))%nat by lia.
+  destruct (file_prefix3 items (S (length text) - length items) db_init (pst_init text month_macros) _ v e Hwf eq_refl Hd)
+    as (d1 & st1 & E1 & V1 & R1 & Er1 & M1).
+  rewrite E1.
+  destruct (S (length text) - length items)%nat as [|[|fu]] eqn:Ef; [lia|lia|].
+  cbn [bib_loop]. unfold skip_to at 1. rewrite R1, (find_first_app _ junk c_at _ Hj eq_refl).
+  match goal with |- context [parse_command Capture ?s1x] => set (s1 := s1x) end.
+  destruct (Hcmd s1 eq_refl) as (st2 & te & Ep & Hsc & Hte & Her2 & Hma2).
+  rewrite Ep. cbn [handle_error obind bib_loop].
+  unfold skip_to. cbn [add_err p_sc]. rewrite Hsc.
+  rewrite (find_first_all_false _ (X :: r)).
+  2:{ intros x [<-|Hx]; [exact HX3|exact (Hr x Hx)]. }
+  eexists. eexists. split; [reflexivity|]. split; [|split; [exact V1|split; [cbn [p_macros add_err]; rewrite Hma2; unfold s1; cbn; exact M1|]]].
+  - split; [cbn; rewrite Hsc; discriminate|]. cbn [p_errs add_err].
+    intros x Hx. apply in_app_or in Hx as [Hx|[<-|[]]]; [|rewrite Hte; discriminate].
+    rewrite Her2 in Hx. unfold s1 in Hx. cbn [p_errs set_cstart set_sc] in Hx. rewrite Er1 in Hx. cbn in Hx.
+    pose proof (data_errs_no_eof e x Hx) as Hc. exact (denote_errs_data _ _ _ _ _ Hd _ Hc).
+  - exists te. split; [cbn [p_errs add_err]; rewrite Her2; unfold s1; cbn; rewrite Er1; reflexivity|exact Hte].
+Qed.
+
+(* ---- (5) the opening delimiter is missing / replaced: '@' ws type ws X ... *)
+Lemma head_ok_ws_or ws1 X r : forallb is_space ws1 = true -> (ws1 <> [] \/ is_name_char X = false) -> head_ok is_name_char (ws1 ++ X :: r).
+Proof.
+  intros Hws [Hne|Hx]; [|apply head_ok_ws_then; assumption].
+  destruct ws1 as [|w ws']; [congruence|]. cbn in Hws |- *. apply andb_prop in Hws as [Hw _]. apply space_not_name_char. exact Hw.
+Qed.
+
+Lemma no_opener_reads s1 ws0 typ ws1 X r :
+  forallb is_space ws0 = true -> forallb is_space ws1 = true -> is_name typ = true ->
+  is_space X = false -> X <> 40 -> X <> c_lbrace -> (ws1 <> [] \/ is_name_char X = false) ->
+  sc_rest (p_sc s1) = ws0 ++ typ ++ ws1 ++ X :: r ->
+  exists st2 te, parse_command Capture s1 = Exc te st2 /\ sc_rest (p_sc st2) = X :: r /\ e_cls te = E_TOKEN
+                 /\ p_errs st2 = p_errs s1 /\ p_macros st2 = p_macros s1.
+Proof.
+  intros H0 H1 Hname HX1 HX2 HX3 HX4 Hr. unfold parse_command.
+  destruct (name_head typ Hname) as (t0 & t' & Ht0 & Hts & Htc).
+  assert (Hf1 : first_match [P_NAME] (typ ++ ws1 ++ X :: r) = Some (P_NAME, typ, ws1 ++ X :: r)).
+  { cbn [first_match]. rewrite (match_name typ _ Hname (head_ok_ws_or ws1 X r H1 HX4)). reflexivity. }
+  rewrite Ht0 in Hr, Hf1. cbn [app] in Hr, Hf1.
+  match goal with |- context [required [P_NAME] ?s0] =>
+    destruct (required_after_ws [P_NAME] s0 ws0 t0 _ _ _ _ H0 (name_char_not_space t0 Htc) Hr Hf1) as (sc1 & E1 & Hr1) end.
+  rewrite E1. cbn [obind]. cbv zeta.
+  match goal with |- context [required [P_LIT 40; P_LIT c_lbrace] ?s] =>
+    destruct (required_none_after_ws [P_LIT 40; P_LIT c_lbrace] s ws1 X r H1 HX1 Hr1) as (sc2 & E2 & Hr2) end.
+  { cbn [first_match match_pat]. apply N.eqb_neq in HX2, HX3. rewrite HX2, HX3. reflexivity. }
+  rewrite E2. cbn [obind]. eexists. eexists. split; [reflexivity|]. cbn. auto.
+Qed.
+
+Lemma suffix_confinement_no_opener_lemma items junk ws0 typ ws1 X r v e items2 tail2 v2 e2 :
+  wf_file month_macros items -> no_at junk -> no_at r -> (X =? c_at) = false ->
+  forallb is_space ws0 = true -> forallb is_space ws1 = true -> is_name typ = true ->
+  is_space X = false -> X <> 40 -> X <> c_lbrace -> (ws1 <> [] \/ is_name_char X = false) ->
+  denote_items2 month_macros items ([], []) = Some (v, e) ->
+  wf_file (final_macros month_macros items) items2 -> no_at tail2 ->
+  denote_items2 (final_macros month_macros items) items2 v = Some (v2, e2) ->
+  exists d' s' te, parse_bib Capture (file_text2 items (junk ++ c_at :: ws0 ++ typ ++ ws1 ++ X :: r) ++ file_text2 items2 tail2) = Ret d' s'
+    /\ view d' = v2 /\ p_errs s' = map data_err e ++ [te] ++ map data_err e2 /\ e_cls te = E_TOKEN.
+Proof.
+  intros Hwf Hj Hr HX0 H0 H1 Hname HX1 HX2 HX3 HX4 Hd Hwf2 Ht2 Hd2.
+  destruct (class_exc_untouched items junk (ws0 ++ typ ++ ws1 ++ X :: r) X r v e Hwf Hj Hr HX0) as (d & s & E & Hu & V & M & te & Er & Hc).
+  - destruct (name_head typ Hname) as (t0 & t' & -> & _ & _). repeat (rewrite ?app_length; cbn [length]). lia.
+  - intros s1 Hs1. exact (no_opener_reads s1 ws0 typ ws1 X r H0 H1 Hname HX1 HX2 HX3 HX4 Hs1).
+  - exact Hd.
+  - destruct (suffix_confinement_lemma _ d s items2 tail2 v2 e2 E Hu) as (d' & s' & E' & V' & Er').
+    + rewrite M. exact Hwf2.
+    + exact Ht2.
+    + rewrite M, V. exact Hd2.
+    + exists d', s', te. split; [exact E'|]. split; [exact V'|]. split; [|exact Hc]. rewrite Er', Er, <- app_assoc. reflexivity.
+Qed.
